@@ -217,6 +217,12 @@ func (s *pstate) clone() *pstate {
 func (c *seeCtx) clone() *seeCtx {
 	n := &seeCtx{x: c.x, depth: c.depth, params: c.params, fvs: c.fvs, stack: c.stack, ps: c.ps, defAt: c.defAt, fn: c.fn,
 		active: map[ssa.Value]bool{}, memo: make(map[ssa.Value]*Expr, len(c.memo))}
+	if c.retAlias != nil {
+		n.retAlias = make(map[ssa.Value]map[int]*ssa.Alloc, len(c.retAlias))
+		for k, v := range c.retAlias {
+			n.retAlias[k] = v
+		}
+	}
 	for k, v := range c.memo {
 		n.memo[k] = v
 	}
@@ -362,6 +368,18 @@ func (pe *pathEnum) instrs(c *seeCtx, b *ssa.BasicBlock, i int, st *pstate, emit
 						st2.segs = append(st2.segs, cs)
 					}
 					st2.segs = append(st2.segs, seg{b: b, from: next, to: -1})
+					// results that are addresses of objects the callee allocated stay live
+					for ri, rv := range cp.Ret.Results {
+						if al, isAlloc := rv.(*ssa.Alloc); isAlloc {
+							if c2.retAlias == nil {
+								c2.retAlias = map[ssa.Value]map[int]*ssa.Alloc{}
+							}
+							if c2.retAlias[call] == nil {
+								c2.retAlias[call] = map[int]*ssa.Alloc{}
+							}
+							c2.retAlias[call][ri] = al
+						}
+					}
 					if len(cp.Results) == 1 {
 						c2.memo[call] = cp.Results[0]
 					} else {
